@@ -6,3 +6,6 @@ import CspuzModel.Properties.C03
 #print axioms Cspuz.C03.C03_five_backends
 #print axioms Cspuz.C03.C03_backend_correct
 #print axioms Cspuz.C03.C03_native_deduction
+#print axioms Cspuz.C03.C03_plain_sugar
+#print axioms Cspuz.C03.C03_java_loop
+#print axioms Cspuz.C03.C03_solver_exists
